@@ -156,8 +156,13 @@ def gen_cases(ctx):
             keys = key_family(rng, 6, 0, 10)
             hist_a = [ops.gen_op(rng, keys, max_value=30, big=0) for _ in range(4)] + [["add", hx(keys[0]), 3]]
             hist_b = [ops.gen_op(rng, keys, max_value=30, big=0) for _ in range(4)] + [["add", hx(keys[-1]), 2]]
-            for a, b in itertools.product(grid, repeat=2):
-                yield {"a": a, "b": b, "hist_a": hist_a, "hist_b": hist_b}
+            for n_pair, (a, b) in enumerate(itertools.product(grid, repeat=2)):
+                c = {"a": a, "b": b, "hist_a": hist_a, "hist_b": hist_b}
+                if n_pair % 5 == 2:
+                    c["after_dropped_temp"] = True
+                elif n_pair % 5 == 4:
+                    c["wrapped_operand"] = True
+                yield c
             # a trivial user subclass on either side must behave like the library class (equal and unequal configurations)
             for a, b in ((grid[0], grid[0]), (grid[0], grid[1]), (grid[1], grid[0])):
                 for a_sub, b_sub in ((True, False), (False, True), (True, True)):
@@ -167,11 +172,26 @@ def gen_cases(ctx):
 def run_case(case, ctx, mon):
     a_cfg, b_cfg = case["a"], case["b"]
     a = make_maybe_subclass(a_cfg, case.get("a_sub"))
-    b = make_maybe_subclass(b_cfg, case.get("b_sub"))
     for op in case["hist_a"]:
         ops.apply_op(a, op)
+    if case.get("after_dropped_temp"):
+        # a compatible temporary is merged and dropped right before the operand under test is built: the new object often gets
+        # the freed address, and anything remembered about 'the sketch merged last' by identity now points at it
+        for _ in range(3):
+            tmp = make_maybe_subclass(a_cfg, False)
+            tmp.add(b"tmp-key", 2)
+            a.merge(tmp)
+            del tmp
+        mon.count("pairs_tested_right_after_a_dropped_compatible_temporary")
+    b = make_maybe_subclass(b_cfg, case.get("b_sub"))
     for op in case["hist_b"]:
         ops.apply_op(b, op)
+    if case.get("wrapped_operand") and b_cfg["kind"] != "hll":
+        # 64 self-merges double the bookkeeping totals to exactly 0 (mod 2^64) while the tables are full of data
+        for _ in range(64):
+            b.merge(b)
+        if int(b.n_added()) == 0:
+            mon.count("operands_whose_bookkeeping_wrapped_to_zero")
     sa, sb = state.snapshot(a), state.snapshot(b)
     ok = compatible(a_cfg, b_cfg)
     mon.nontrivial(n_diff(a_cfg, b_cfg) <= 1)
@@ -216,6 +236,8 @@ def floors(mon, ctx):
     inc = sum(v for k, v in mon.counters.items() if k.startswith("pairs:incompatible"))
     com = sum(v for k, v in mon.counters.items() if k.startswith("pairs:compatible"))
     mon.floor("incompatible pairs", inc, 200)
+    mon.floor("pairs tested right after a dropped compatible temporary", mon.counters["pairs_tested_right_after_a_dropped_compatible_temporary"], 100)
+    mon.floor("operands whose bookkeeping totals wrapped to zero", mon.counters["operands_whose_bookkeeping_wrapped_to_zero"], 50)
     mon.floor("compatible pairs", com, 20)
     for need in ("width", "depth", "max_count", "num_reserved", "kind", "p", "seed", "max_key_len"):
         mon.floor(f"single-parameter difference in {need}", int(need in mon.classes["differing_parameter_sets"]), 1)
